@@ -13,8 +13,8 @@ from checks import c02
 PROPERTY = "C19"
 FUNCTIONS = ["convert_to_dict", "_convert_to_dict_by_func", "_get_convert_func", "export_mfa_flows_to_csv", "export_mfa_stocks_to_csv", "to_valid_file_name",
              "FlodymArray.to_df", "FlodymArray.from_df"]
-ASSUMPTIONS = ["DataFrame.to_csv is replaced by a recorder (the CSV text itself is outside: compiled formatting concretises)", "cell values pairwise different for frames with more than 4 cells"]
-OUTSIDE = ["CSV text and pickle byte round trips", "MFADefinition.to_dfs (no numeric or symbolic content)", "systems beyond the bound"]
+ASSUMPTIONS = ["MFADefinition.to_dfs has no numeric content: its harness is an exhaustive structural enumeration (32 subsets of empty kinds) with Python-level obligations, no solver query is involved there", "DataFrame.to_csv is replaced by a recorder (the CSV text itself is outside: compiled formatting concretises)", "cell values pairwise different for frames with more than 4 cells"]
+OUTSIDE = ["CSV text and pickle byte round trips", "systems beyond the bound"]
 BOUNDS = {"quick": dict(processes="sysenv + 2", flows="1..3 flows of differing dimensionality (structured third of the multisets)", stocks="none / at p1 / without process / two", forms="numpy, pandas, csv flows, csv stocks with and without inflow/outflow"),
           "thorough": dict(processes="sysenv + 3", flows="1..4", stocks="as quick", forms="as quick")}
 OPTS = {"quick": dict(shadow_every=10, max_paths=100, max_depth=800), "thorough": dict(shadow_every=40, max_paths=100, max_depth=800)}
@@ -32,6 +32,9 @@ def configs(tier, seed):
                 for form in ("numpy", "pandas", "csv"):
                     key = f"export/{form}/" + "+".join(f"{a}>{b}:{d or '-'}" for (a, b), d in zip(fs, fdims)) + "/stocks=" + ",".join(str(s) for s in sc)
                     out.append(dict(h="export", op=form, key=key, procs=procs, flows=[list(p) for p in fs], fdims=fdims, stocks=sc, form=form))
+    # MFADefinition.to_dfs: purely structural (no numeric content exists): every subset of non-empty kinds of definition
+    for mask in range(32):
+        out.append(dict(h="definition_tables", op="to_dfs", key=f"definition_tables/kinds={mask:05b}", mask=mask, procs=[], flows=[], fdims=[], stocks=[], form="to_dfs"))
     return out
 
 
@@ -57,9 +60,60 @@ def _check_df(w, tag, df, d, V):
     w.ob(f"{tag}:row_count", len(rows) == int(np.prod(np.shape(V) or (1,))))
 
 
+def _definition_tables(cfg, w):
+    """one table per non-empty kind of definition, one row per definition, holding its field values.
+    No symbolic values exist here: the obligations are Python-level structural checks, enumerated over all 32
+    subsets of {dimensions, processes, flows, stocks, parameters} being empty or not."""
+    from flodym import MFADefinition, DimensionDefinition, FlowDefinition, StockDefinition, ParameterDefinition
+    from flodym.stocks import SimpleFlowDrivenStock, InflowDrivenDSM
+    from flodym.lifetime_models import NormalLifetime
+
+    m = cfg["mask"]
+    kinds = dict(
+        dimensions=[DimensionDefinition(name="Time", letter="t", dtype=int), DimensionDefinition(name="Region", letter="r", dtype=str)] if m & 1 else [],
+        processes=["sysenv", "use phase", "waste mgmt."] if m & 2 else [],
+        flows=[FlowDefinition(from_process="sysenv", to_process="use phase", dim_letters=("t", "r")),
+               FlowDefinition(from_process="use phase", to_process="waste mgmt.", dim_letters=("r", "t"), name_override="eol flow")] if (m & 4 and m & 2 and m & 1) else [],
+        stocks=[StockDefinition(name="in use", process="use phase", dim_letters=("t", "r"), subclass=InflowDrivenDSM, lifetime_model_class=NormalLifetime),
+                StockDefinition(name="landfill", dim_letters=("t",), subclass=SimpleFlowDrivenStock, process="waste mgmt.")] if (m & 8 and m & 2 and m & 1) else [],
+        parameters=[ParameterDefinition(name="share", dim_letters=("r",)), ParameterDefinition(name="lifetime mean", dim_letters=("t", "r")), ParameterDefinition(name="k", dim_letters=())] if (m & 16 and m & 1) else [],
+    )
+    try:
+        d = MFADefinition(**kinds)
+    except Exception as e:
+        w.ob("definition_accepted", False, info=repr(e)[:200])
+        return
+    dfs = d.to_dfs()
+    nonempty = [k for k in ("dimensions", "processes", "flows", "stocks", "parameters") if kinds[k]]
+    w.ob("one_table_per_non_empty_kind", list(dfs) == nonempty, info=f"{list(dfs)} want {nonempty}")
+    for k in nonempty:
+        if k not in dfs:
+            continue
+        df = dfs[k]
+        w.ob(f"{k}:one_row_per_definition", len(df) == len(kinds[k]))
+        for i, item in enumerate(kinds[k]):
+            if i >= len(df):
+                break
+            row = df.iloc[i]
+            if isinstance(item, str):
+                w.ob(f"{k}[{i}]:name", list(df.columns) == ["name"] and row["name"] == item)
+            else:
+                dump = item.model_dump()
+                w.ob(f"{k}[{i}]:columns_are_fields", set(df.columns) == set(dump))
+                for f_, v in dump.items():
+                    if f_ in df.columns:
+                        got = row[f_]
+                        same = (got == v) if not isinstance(v, tuple) else (tuple(got) == v if not isinstance(got, float) else len(v) == 0)
+                        w.ob(f"{k}[{i}].{f_}", bool(same) or (v is None and got is None) or (v == () and (got == () or got != got)), info=f"{got!r} want {v!r}")
+    w.ob_eq("anchor", w.real("one", default=1) * 0 + 1, 1)
+
+
 def run(cfg, w):
     import pandas as pd
     from flodym import FlodymArray, DimensionSet
+
+    if cfg["h"] == "definition_tables":
+        return _definition_tables(cfg, w)
     from flodym.export.data_writer import convert_to_dict, export_mfa_flows_to_csv, export_mfa_stocks_to_csv
     from flodym.export.helper import to_valid_file_name
 
